@@ -10,7 +10,9 @@
    Simplifications, each named in design.d/C04.md:
    - `child._version` followed by `child.bindings` (two _update_cache calls on
      the child, the second one finding nothing to do) is one call of [upd];
-   - SimpleCache eviction (maxsize 10000 / 1000 entries) is not modelled;
+   - SimpleCache eviction is modelled ([cache_put]: the oldest entry goes when the
+     size exceeds maxsize); the two maxsize values (10000 / 1000 in the source) are
+     a parameter [mx] of [lookup], read from the real objects by the harness;
    - id(key_bindings) in DynamicKeyBindings' version is the store index;
    - filters are expressions; ConditionalKeyBindings' `self.filter & b.filter`
      is the expression [FAnd], compared through truth tables (the object
@@ -53,6 +55,18 @@ Fixpoint cache_get (ks : list Z) (c : lcache) : option (list binding) :=
   | [] => None
   | (k, r) :: t => if keys_eqb ks k then Some r else cache_get ks t
   end.
+
+(* SimpleCache.get on a miss:
+     self._data[key] = value; self._keys.append(key)
+     if len(self._data) > self.maxsize: key_to_remove = self._keys.popleft(); del self._data[key_to_remove]
+   The list holds the entries newest first, so the oldest one is the last.  A key is only
+   appended on a miss, so _keys has no duplicates and `key_to_remove in self._data` holds. *)
+Definition cache_put (mx : nat) (ks : list Z) (r : list binding) (c : lcache) : lcache :=
+  let c' := (ks, r) :: c in
+  if Nat.ltb mx (length c') then removelast c' else c'.
+
+(* maxsize of _get_bindings_for_keys_cache, of _get_bindings_starting_with_keys_cache *)
+Definition maxsizes : Type := (nat * nat)%type.
 
 Record proxy : Type := mkproxy {
   lastv : ver;               (* _last_version *)
@@ -149,7 +163,7 @@ Definition with_proxy (o : obj) (p : proxy) : obj :=
 (* which = true: get_bindings_for_keys, false: get_bindings_starting_with_keys *)
 Definition getter (which : bool) := if which then for_keys else starting_with.
 
-Fixpoint lookup (fuel : nat) (which : bool) (s : store) (i : nat) (ks : list Z) : store * list binding :=
+Fixpoint lookup (mx : maxsizes) (fuel : nat) (which : bool) (s : store) (i : nat) (ks : list Z) : store * list binding :=
   match fuel with
   | O => (s, [])
   | S f =>
@@ -159,12 +173,13 @@ Fixpoint lookup (fuel : nat) (which : bool) (s : store) (i : nat) (ks : list Z) 
         match cache_get ks (if which then c1 else c2) with
         | Some r => (s, r)
         | None => let r := getter which bs ks in
-                  (set_nth s i (if which then OKB bs v ((ks, r) :: c1) c2 else OKB bs v c1 ((ks, r) :: c2)), r)
+                  (set_nth s i (if which then OKB bs v (cache_put (fst mx) ks r c1) c2
+                                else OKB bs v c1 (cache_put (snd mx) ks r c2)), r)
         end
     | Some (ODyn cands sel) =>
         let '(s1, _, _) := upd (S f) s i in
         match dyn_child cands sel with
-        | Some c => lookup f which s1 c ks
+        | Some c => lookup mx f which s1 c ks
         | None => (s1, [])
         end
     | Some _ =>
@@ -176,8 +191,8 @@ Fixpoint lookup (fuel : nat) (which : bool) (s : store) (i : nat) (ks : list Z) 
                 match cache_get ks (if which then pc1 p else pc2 p) with
                 | Some r => (s1, r)
                 | None => let r := getter which (b2 p) ks in
-                          let p' := if which then mkproxy (lastv p) (b2 p) ((ks, r) :: pc1 p) (pc2 p)
-                                    else mkproxy (lastv p) (b2 p) (pc1 p) ((ks, r) :: pc2 p) in
+                          let p' := if which then mkproxy (lastv p) (b2 p) (cache_put (fst mx) ks r (pc1 p)) (pc2 p)
+                                    else mkproxy (lastv p) (b2 p) (pc1 p) (cache_put (snd mx) ks r (pc2 p)) in
                           (set_nth s1 i (with_proxy o p'), r)
                 end
             | None => (s1, [])
@@ -372,41 +387,62 @@ Definition is_kb (s : store) (k : nat) : bool :=
 Definition is_dyn (s : store) (k : nat) : bool :=
   match nth_error s k with Some (ODyn _ _) => true | _ => false end.
 
-Fixpoint run_rops (nc : nat) (s : store) (ops : list rop) : list sx :=
+(* the state the correspondence compares at the end of a history, object by object:
+   KeyBindings: version counter and the keys held by the two SimpleCaches (newest first);
+   caching wrappers: _last_version and the keys held by the caches of _bindings2 *)
+Fixpoint enc_ver (v : ver) : sx :=
+  match v with
+  | VInt z => L [A 0; A z]
+  | VTup l => L (A 1 :: (fix go (l : list ver) : list sx :=
+                           match l with [] => [] | x :: r => enc_ver x :: go r end) l)
+  | VDyn i x => L [A 2; A (Z.of_nat i); enc_ver x]
+  end.
+
+Definition enc_ckeys (c : lcache) : sx := L (map (fun e => sx_str (fst e)) c).
+
+Definition enc_objstate (o : obj) : sx :=
+  match o with
+  | OKB _ v c1 c2 => L [enc_ver (VInt v); enc_ckeys c1; enc_ckeys c2]
+  | OCondW _ _ p | OMerged _ p | OGlobal _ p => L [enc_ver (lastv p); enc_ckeys (pc1 p); enc_ckeys (pc2 p)]
+  | ODyn _ _ => L []
+  end.
+
+Fixpoint run_rops (mx : maxsizes) (nc : nat) (s : store) (ops : list rop) : list sx :=
   let fuel := S (length s) in
   match ops with
-  | [] => []
+  | [] => [L [A 50; L (map enc_objstate s)]]
   | o :: r =>
       match o with
-      | RAdd k b => if is_kb s k then L [A 0] :: run_rops nc (kb_add s k b) r else [L [A (-1)]]
-      | RAddB k pre arg => if is_kb s k then L [A 0] :: run_rops nc (kb_addb s k pre arg) r else [L [A (-1)]]
+      | RAdd k b => if is_kb s k then L [A 0] :: run_rops mx nc (kb_add s k b) r else [L [A (-1)]]
+      | RAddB k pre arg => if is_kb s k then L [A 0] :: run_rops mx nc (kb_addb s k pre arg) r else [L [A (-1)]]
       | RRemoveKeys k ks =>
-          if is_kb s k then let '(s', st) := kb_remove s k false 0 ks in L [A st] :: run_rops nc s' r
+          if is_kb s k then let '(s', st) := kb_remove s k false 0 ks in L [A st] :: run_rops mx nc s' r
           else [L [A (-1)]]
       | RRemoveHandler k h =>
-          if is_kb s k then let '(s', st) := kb_remove s k true h [] in L [A st] :: run_rops nc s' r
+          if is_kb s k then let '(s', st) := kb_remove s k true h [] in L [A st] :: run_rops mx nc s' r
           else [L [A (-1)]]
-      | RSetDyn d sel => if is_dyn s d then L [A 0] :: run_rops nc (set_dyn s d sel) r else [L [A (-1)]]
+      | RSetDyn d sel => if is_dyn s d then L [A 0] :: run_rops mx nc (set_dyn s d sel) r else [L [A (-1)]]
       | RLookup which i ks =>
           if Nat.ltb i (length s) then
-            let '(s', bs) := lookup fuel which s i ks in
-            L [A 0; L (map (enc_binding nc) bs)] :: run_rops nc s' r
+            let '(s', bs) := lookup mx fuel which s i ks in
+            L [A 0; L (map (enc_binding nc) bs)] :: run_rops mx nc s' r
           else [L [A (-1)]]
       | RBindings i =>
           if Nat.ltb i (length s) then
             let '(s', _, bs) := upd fuel s i in
-            L [A 0; L (map (enc_binding nc) bs)] :: run_rops nc s' r
+            L [A 0; L (map (enc_binding nc) bs)] :: run_rops mx nc s' r
           else [L [A (-1)]]
       end
   end.
 
-(* case = (nconds objects ops) *)
+(* case = (nconds objects ops (maxsize1 maxsize2)) *)
 Definition run_registry (c : list sx) : sx :=
   match c with
-  | [A nc; L objs; L ops] =>
+  | [A nc; L objs; L ops; L [A m1; A m2]] =>
       match map_opt dec_obj objs, map_opt dec_rop ops with
       | Some objs', Some ops' =>
-          if (0 <=? nc) && (nc <=? 6) && wf_objs 0 objs' then L (run_rops (Z.to_nat nc) objs' ops')
+          if (0 <=? nc) && (nc <=? 6) && wf_objs 0 objs' && (1 <=? m1) && (1 <=? m2)   (* assert maxsize > 0 *)
+          then L (run_rops (Z.to_nat m1, Z.to_nat m2) (Z.to_nat nc) objs' ops')
           else bad_case
       | _, _ => bad_case
       end
